@@ -464,7 +464,6 @@ UNITS = [
          checks=[Check('point_count', 'h_mc_point_count', enforce='mc_point_count', timeout=300),
                  Check('lambda', 'h_mc_lambda', enforce='translate_mirror_points'),
                  Check('call', 'h_mc_call', enforce='mc_call', loops=True, replace=['mc_point_count', 'translate_mirror_points'], object_bits=12, timeout=900),
-                 Check('count_eq', 'h_mc_count_eq', engine='B', unwind=6, defines=['RADIUS_MAX=4'], tier='thorough'),
                  Check('native_window', 'none', engine='N', native=NATIVE_CIRC, timeout=1800)],
          preconditions=['circle radius 0..4096, |centre| <= 10^6 (radius^2 does not overflow; proved by the overflow obligations)'],
          assumed=['cos(pi/4) is the double constant the probe prints (g++ / libm)', 'CBMC round() model']),
